@@ -261,3 +261,17 @@ func ConsumeVarintLen(b0 byte) int { return specVarintLen(b0) }
 
 //@ spec
 func SpecSizeVarint(v uint64) int { return specSizeVarint(v) }
+
+// Self-test of the verifier's built-in facts about append (run with GOVC_NO_DERIVED=1: the facts the
+// generator states after an append must follow from the sequence axioms alone).
+//
+//@ lemma props SELFTEST
+func lemmaAppendFacts(b, v []byte) {
+	Vassume(SpareDisjoint(b, v))
+	pb, pv := string(b), string(v)
+	r := append(b, v...)
+	Vassert(len(r) == len(b)+len(v))
+	Vassert(string(r[:len(b)]) == pb)
+	Vassert(string(r[len(b):]) == pv)
+	Vassert(string(r) == pb+pv)
+}
